@@ -1,5 +1,5 @@
 (* Layer I: why the remainder tests of handle_UF_128 are decisive (pure integer arithmetic, logical path DVI). *)
-From Coq Require Import ZArith Lia Bool List.
+From Coq Require Import ZArith Lia Bool List ZifyBool.
 Open Scope Z_scope.
 
 (* the remainder of the multiply-and-shift division decides where C' mod D lies *)
@@ -68,4 +68,70 @@ Proof.
   pose proof (Z.div_mod (Ql + R) 340282366920938463463374607431768211456 ltac:(lia)) as DM.
   pose proof (Z.mod_pos_bound (Ql + R) 340282366920938463463374607431768211456 ltac:(lia)) as MB.
   repeat split; intros; lia.
+Qed.
+
+(* ---------- quotient and exact-division test from the four 64-bit words of C' * K (K < 2^128, scale 2^(128+s)) ---------- *)
+Lemma quot_tests K s D e B C' p0 p1 p2 p3 : 0 < D -> 0 <= s -> K * D = 2 ^ (128 + s) + e -> 1 <= e -> 0 <= C' <= B -> (B / D + 3) * e < K ->
+  0 <= K < 340282366920938463463374607431768211456 ->
+  0 <= p0 < 18446744073709551616 -> 0 <= p1 < 18446744073709551616 -> 0 <= p2 < 18446744073709551616 -> 0 <= p3 < 18446744073709551616 ->
+  ((p3 * 18446744073709551616 + p2) * 18446744073709551616 + p1) * 18446744073709551616 + p0 = C' * K ->
+  let Q := C' / D in let r := C' mod D in let lo := p1 * 18446744073709551616 + p0 in
+  (s < 64 -> (p3 * 18446744073709551616 + p2) / 2 ^ s = Q /\
+     ((p2 mod 2 ^ s =? 0) && (negb (lo =? 0)) && (lo <=? K - 1)) = ((r =? 0) && (0 <? Q))) /\
+  (64 <= s -> p3 / 2 ^ (s - 64) = Q /\
+     ((p3 mod 2 ^ (s - 64) =? 0) && (p2 =? 0) && (negb (lo =? 0)) && (lo <=? K - 1)) = ((r =? 0) && (0 <? Q))).
+Proof.
+  intros HD Hs HR He HC HB HK H0 H1 H2 H3 HP Q r lo.
+  assert (HPS : 0 < 2 ^ (128 + s)) by (apply Z.pow_pos_nonneg; lia).
+  destruct (recip_core K (2 ^ (128 + s)) D e B C' HD HPS HR ltac:(lia) HC HB) as (Erho & Brho & EQ & T0 & _ & _).
+  fold Q r in Erho, Brho, EQ, T0. set (rho := C' * K - Q * 2 ^ (128 + s)) in *.
+  assert (HQ0 : 0 <= Q) by (apply Z.div_pos; lia).
+  assert (Hr : 0 <= r < D) by (apply Z.mod_pos_bound; lia).
+  assert (Hlo : 0 <= lo < 340282366920938463463374607431768211456) by (unfold lo; lia).
+  assert (POS : r = 0 -> (0 < rho <-> 0 < Q)).
+  { intros R0. rewrite Erho, R0, Z.mul_0_l, Z.add_0_r. clear - HQ0 He. split; intros H; [destruct (Z.eq_dec Q 0) as [->|]; lia|apply Z.mul_pos_pos; lia]. }
+  assert (LOW : forall a : Z, 0 <= a -> rho = a * 340282366920938463463374607431768211456 + lo -> rho < K -> a = 0).
+  { intros a Ha E L. clear - Ha E L HK Hlo. destruct (Z.eq_dec a 0); [assumption|]. assert (1 <= a) by lia. nia. }
+  split.
+  - intros Hs64. assert (Hps : 0 < 2 ^ s) by (apply Z.pow_pos_nonneg; lia).
+    assert (E128 : 2 ^ (128 + s) = 340282366920938463463374607431768211456 * 2 ^ s) by (rewrite Z.pow_add_r by lia; reflexivity).
+    set (Qh := p3 * 18446744073709551616 + p2) in *.
+    destruct (split_high Qh lo (2 ^ s) 340282366920938463463374607431768211456 (C' * K) Hps ltac:(lia) Hlo ltac:(unfold Qh; lia)
+                ltac:(rewrite <- HP; unfold Qh, lo; ring)) as [SQ SR].
+    rewrite <- E128 in SQ, SR. rewrite EQ in SQ, SR. fold rho in SR.
+    assert (EM : Qh mod 2 ^ s = p2 mod 2 ^ s).
+    { unfold Qh. assert (E64 : 18446744073709551616 = 2 ^ (64 - s) * 2 ^ s) by (rewrite <- Z.pow_add_r by lia; replace (64 - s + s) with 64 by ring; reflexivity).
+      rewrite E64. rewrite Z.mul_assoc, Z.add_comm, Z.mod_add by lia. reflexivity. }
+    rewrite EM in SR. split; [exact SQ|].
+    assert (Hm : 0 <= p2 mod 2 ^ s) by (apply Z.mod_pos_bound; lia).
+    destruct (Z.eqb_spec r 0) as [R0|R0]; cbn [andb].
+    + pose proof (proj2 T0 R0) as T1. specialize (POS R0).
+      assert (Hm0 : p2 mod 2 ^ s = 0) by (apply LOW; assumption). rewrite Hm0. cbn [Z.eqb andb].
+      assert (E : rho = lo) by (rewrite SR, Hm0; ring). clear - E T1 POS Brho. destruct (Z.ltb_spec 0 Q); lia.
+    + assert (T1 : ~ rho < K) by (intros X; apply R0, T0, X).
+      destruct (Z.eqb_spec (p2 mod 2 ^ s) 0) as [Z0|Z0]; cbn [andb]; [|reflexivity].
+      assert (E : rho = lo) by (rewrite SR, Z0; ring). clear - E T1 Brho. lia.
+  - intros Hs64. set (s' := s - 64) in *. assert (Hps' : 0 < 2 ^ s') by (apply Z.pow_pos_nonneg; unfold s'; lia).
+    set (W := 340282366920938463463374607431768211456 * 18446744073709551616).
+    assert (EW : 2 ^ (128 + s) = W * 2 ^ s').
+    { unfold W, s'. replace (128 + s) with (192 + (s - 64)) by ring. rewrite Z.pow_add_r by lia. reflexivity. }
+    set (Ql := p2 * 340282366920938463463374607431768211456 + lo).
+    assert (HQl : 0 <= Ql < W) by (unfold Ql, W; lia).
+    destruct (split_high p3 Ql (2 ^ s') W (C' * K) Hps' ltac:(unfold W; lia) HQl ltac:(lia)
+                ltac:(rewrite <- HP; unfold Ql, lo, W; ring)) as [SQ SR].
+    rewrite <- EW in SQ, SR. rewrite EQ in SQ, SR. fold rho in SR.
+    split; [exact SQ|].
+    assert (Hm : 0 <= p3 mod 2 ^ s') by (apply Z.mod_pos_bound; lia).
+    assert (SR' : rho = (p3 mod 2 ^ s' * 18446744073709551616 + p2) * 340282366920938463463374607431768211456 + lo)
+      by (rewrite SR; unfold W, Ql; ring).
+    destruct (Z.eqb_spec r 0) as [R0|R0]; cbn [andb].
+    + pose proof (proj2 T0 R0) as T1. specialize (POS R0).
+      assert (Hz : p3 mod 2 ^ s' * 18446744073709551616 + p2 = 0) by (apply LOW; [lia|assumption|assumption]).
+      assert (Hm0 : p3 mod 2 ^ s' = 0) by (clear - Hz Hm H2; lia). assert (Hp2 : p2 = 0) by (clear - Hz Hm H2; lia).
+      rewrite Hm0, Hp2. cbn [Z.eqb andb].
+      assert (E : rho = lo) by (rewrite SR', Hz; ring). clear - E T1 POS Brho. destruct (Z.ltb_spec 0 Q); lia.
+    + assert (T1 : ~ rho < K) by (intros X; apply R0, T0, X).
+      destruct (Z.eqb_spec (p3 mod 2 ^ s') 0) as [Z0|Z0]; cbn [andb]; [|reflexivity].
+      destruct (Z.eqb_spec p2 0) as [Z2|Z2]; cbn [andb]; [|reflexivity].
+      assert (E : rho = lo) by (rewrite SR', Z0, Z2; ring). clear - E T1 Brho. lia.
 Qed.
